@@ -76,6 +76,9 @@ pub fn shape_name(s: Shape) -> &'static str {
         Shape::Step => "step",
         Shape::Step2 => "step2",
         Shape::History => "history",
+        Shape::CloneThen => "clone_then",
+        Shape::RawThen => "raw_then",
+        Shape::CapSpecial => "cap_special",
     }
 }
 pub fn shape_from(s: &str) -> Option<Shape> {
@@ -83,6 +86,9 @@ pub fn shape_from(s: &str) -> Option<Shape> {
         "step" => Some(Shape::Step),
         "step2" => Some(Shape::Step2),
         "history" => Some(Shape::History),
+        "clone_then" => Some(Shape::CloneThen),
+        "raw_then" => Some(Shape::RawThen),
+        "cap_special" => Some(Shape::CapSpecial),
         _ => None,
     }
 }
